@@ -108,18 +108,27 @@ def probes_for(file, header, fn, pid=None):
     return []
 
 
-def search(pid, unit, mm, fm, seed):
-    """first failing input found for the function of a failed obligation, or {}"""
+def search(pid, unit, mm, fm, seed, iters=96, seeds=1):
+    """first failing input found for the function of a failed obligation; otherwise a dict without `input` that says how
+    much was searched: ran = number of bounded checks that passed, probes = [(build, probe)], norun = probes that did not run"""
     if not os.path.isdir(RUNNER):
         return {}
     file = mm.get("file")
     if not file or file.startswith("("):      # generated lemma: the source file its literals were read from
         file = fm.get("file") or file
+    ran, probes, norun = 0, [], []
     for (feat, probe) in probes_for(file, mm.get("header"), fm.get("display", fm.get("fn", "")), pid):
-        r = run_probe(feat, probe, seed or 1, iters=96)
-        if r.get("status") == "cex":
-            return dict(input=r.get("input"), check=r.get("check"), got=r.get("got"), want=r.get("want"), cmd=r.get("cmd"), probe=probe, build=feat)
-    return {}
+        for k in range(seeds):
+            r = run_probe(feat, probe, (seed or 1) + 7919 * k, iters=iters)
+            if r.get("status") == "cex":
+                return dict(input=r.get("input"), check=r.get("check"), got=r.get("got"), want=r.get("want"), cmd=r.get("cmd"), probe=probe, build=feat)
+            if r.get("status") == "ok":
+                ran += r.get("checks", 0)
+                probes.append((feat, probe))
+            else:
+                norun.append((feat, probe, r.get("detail", "")[:200]))
+                break
+    return dict(ran=ran, probes=probes, norun=norun)
 
 
 def known_finding_reproduces(spec):
